@@ -169,3 +169,238 @@ def gen_rel_points(rng, shape_class):
                 if rng.random() < 0.5:
                     rel[j, ax] = rng.choice([0.0, 1.0])
     return rel.reshape(shape)
+
+
+# ---------------------------------------------------------------------------------------------------------------------
+# cells with STRUCTURED zero patterns (exact zeros in chosen places, everything else clearly non-zero)
+# ---------------------------------------------------------------------------------------------------------------------
+# (pattern, sub-variant): the mask says which components of the 3x3 vector matrix are non-zero BEFORE the rows (which
+# vector) and the columns (which Cartesian axis) are permuted
+_U = [(0, 1), (0, 2), (1, 2)]
+_FULL = np.ones((3, 3), bool)
+
+
+def _mask(pattern, sub):
+    m = np.eye(3, dtype=bool)
+    if pattern == 'upper':                         # upper-triangular, everything above the diagonal populated
+        m = np.triu(_FULL)
+    elif pattern == 'lower':                       # lower-triangular = LAMMPS orientation (when the diagonal is > 0)
+        m = np.tril(_FULL)
+    elif pattern == 'diagonal':
+        pass
+    elif pattern == 'upper-one':                   # one single component above the diagonal (hexagonal with b along y, ...)
+        m[_U[sub % 3]] = True
+    elif pattern == 'upper-two':
+        for k in range(3):
+            if k != sub % 3:
+                m[_U[k]] = True
+    elif pattern == 'lower-one':
+        r, c = _U[sub % 3]
+        m[c, r] = True
+    elif pattern == 'lower-two':
+        for k in range(3):
+            if k != sub % 3:
+                r, c = _U[k]
+                m[c, r] = True
+    elif pattern == 'axis-general':                # one vector along a Cartesian axis, the other two general
+        k = sub % 3
+        m = _FULL.copy()
+        m[k, :] = False
+        m[k, k] = True
+    elif pattern == 'block':                       # one vector along an axis, the other two in the plane normal to it
+        k = sub % 3
+        m = _FULL.copy()
+        m[k, :] = False
+        m[:, k] = False
+        m[k, k] = True
+    elif pattern == 'single-zero':                 # one exact zero in an otherwise general matrix
+        m = _FULL.copy()
+        m[(sub % 9) // 3, (sub % 9) % 3] = False
+    elif pattern == 'hexagonal-setting':
+        pass                                       # handled by value below
+    else:
+        raise ValueError(pattern)
+    return m
+
+
+PATTERNS = ['upper', 'lower', 'diagonal', 'upper-one', 'lower-one', 'axis-general', 'block', 'single-zero', 'upper-two',
+            'lower-two', 'hexagonal-setting']
+PERMS = [(0, 1, 2), (1, 2, 0), (2, 0, 1), (0, 2, 1), (2, 1, 0), (1, 0, 2)]
+
+
+def structured_class(i):
+    """Round-robin: pattern fastest; even rounds keep the pattern as named (upper-triangular stays upper-triangular),
+    odd rounds permute rows (which vector) and columns (which axis) - all 36 arrangements occur within 24 rounds;
+    sub-variant, origin class and length scale rotate on their own periods."""
+    nP = len(PATTERNS)
+    p = i % nP
+    j = i // nP
+    k = j // 2
+    rowp, colp = (0, 0) if j % 2 == 0 else (k % 6, (k // 6 + p) % 6)
+    return PATTERNS[p], (j + j // 6) % 9, rowp, colp, ORIGINS[i % 4], SCALES[(i // 4) % 4]
+
+
+def _hexagonal_settings(rng, sub):
+    a = rng.uniform(2.5, 6.0)
+    c = a * rng.uniform(1.5, 2.4)
+    s3 = np.sqrt(3.0) / 2
+    if sub % 3 == 0:        # b along y, a 30 degrees below x  (exact zeros below the diagonal, one non-zero above)
+        return np.array([[a * s3, -a / 2, 0.0], [0.0, a, 0.0], [0.0, 0.0, c]])
+    if sub % 3 == 1:        # a and b symmetric about x
+        return np.array([[a * s3, -a / 2, 0.0], [a * s3, a / 2, 0.0], [0.0, 0.0, c]])
+    return np.array([[0.0, 0.0, c], [a, 0.0, 0.0], [-a / 2, a * s3, 0.0]]) if sub % 2 else \
+        np.array([[a, 0.0, 0.0], [-a / 2, a * s3, 0.0], [0.0, 0.0, c]])
+
+
+def gen_structured_cell(rng, pattern, sub=0, rowp=0, colp=0, origin='zero', scale=1.0, integer=False):
+    """Right-handed, well-conditioned cell (volume >= 20 % of a*b*c, condition number <= 40) whose vector matrix has
+    exact zeros exactly where the (row- and column-permuted) pattern says; all other components are at least 10 % of
+    the largest one in magnitude.  ``integer``: all components (and the origin) are whole numbers."""
+    rp, cp = list(PERMS[rowp % 6]), list(PERMS[colp % 6])
+    for attempt in range(400):
+        if pattern == 'hexagonal-setting' and not integer:
+            base = _hexagonal_settings(rng, sub)
+            mask = base != 0.0
+        else:
+            mask = _mask('upper-one' if pattern == 'hexagonal-setting' else pattern, sub)
+            if integer:
+                dia = rng.integers(4, 10, 3).astype(float)
+                off = rng.integers(1, 5, (3, 3)).astype(float)
+            else:
+                L0 = rng.uniform(2.5, 8.0)
+                dia = rng.uniform(0.6, 1.2, 3) * L0
+                off = rng.uniform(0.15, 0.7, (3, 3)) * L0
+            base = off * rng.choice([-1.0, 1.0], (3, 3))
+            base[np.diag_indices(3)] = dia * rng.choice([1.0, 1.0, 1.0, -1.0], 3)
+            base = np.where(mask, base, 0.0)
+        v = base[rp][:, cp]
+        m = mask[rp][:, cp]
+        det = np.linalg.det(v)
+        abc = np.prod(np.linalg.norm(v, axis=1))
+        if abs(det) < 0.2 * abc or np.linalg.cond(v) > 40:
+            continue
+        if det < 0:                                 # make it right-handed without touching the zero pattern
+            k = int(rng.integers(0, 3))
+            v[k] = -v[k]
+        break
+    else:
+        raise RuntimeError('no well-conditioned cell for ' + pattern)
+    v = np.where(m, v, 0.0) * (1.0 if integer else scale)       # (-0.0 -> 0.0)
+    L = np.linalg.norm(v, axis=1).max()
+    if origin == 'zero':
+        o = np.zeros(3)
+    elif integer:
+        o = rng.integers(-12, 13, 3).astype(float) if origin == 'near' else rng.integers(-20000, 20001, 3).astype(float)
+    elif origin == 'near':
+        o = rng.uniform(-2, 2, 3) * L
+    elif origin == 'far':
+        o = rng.uniform(-1e3, 1e3, 3) * L
+    else:
+        o = rng.choice([-1.0, 1.0], 3) * rng.uniform(1e5, 1e6, 3) * L
+    return dict(kind='struct:' + pattern, vects=v, origin=o, params=None, lammps=G.is_lammps_form(v, 0.0), L=L,
+                origin_class=origin, scale=scale, pattern=pattern, sub=sub, rowp=rowp % 6, colp=colp % 6, mask=m)
+
+
+def zero_layout(v):
+    """Labels of the zero pattern of a vector matrix as it stands (after all permutations), for coverage floors."""
+    v = np.asarray(v)
+    nz = v != 0.0
+    below = nz[1, 0] or nz[2, 0] or nz[2, 1]
+    above = nz[0, 1] or nz[0, 2] or nz[1, 2]
+    out = ['zeros:%d' % int(9 - nz.sum())]
+    if nz.all():
+        out.append('no-zero')
+    elif not below and not above:
+        out.append('diagonal' if nz[0, 0] and nz[1, 1] and nz[2, 2] else 'other')
+    elif not below and above:
+        out.append('zero-below-nonzero-above')
+    elif below and not above:
+        out.append('zero-above-nonzero-below')
+    else:
+        out.append('mixed')
+    if not (nz[0, 0] and nz[1, 1] and nz[2, 2]):
+        out.append('zero-on-diagonal')
+    return out
+
+
+# ---------------------------------------------------------------------------------------------------------------------
+# small changes of a cell (strain ladders)
+# ---------------------------------------------------------------------------------------------------------------------
+MAGS = [1e-12, 1e-11, 1e-10, 1e-9, 1e-8, 1e-7, 1e-6, 3e-6, 1e-5, 3e-5, 1e-4, 1e-3, 1e-2, 1e-1]
+KEEP_ZERO_CHANGES = ['volumetric', 'normal', 'row-scale', 'single-component']          # zero components stay exactly zero
+FILL_CHANGES = ['general-strain', 'shear', 'single-fill', 'rotation', 'row-mix']       # zero components get populated
+SMALL_CHANGES = KEEP_ZERO_CHANGES + FILL_CHANGES
+ZERO_ZONE = 2e-8             # components below 1e-9 of the largest are documented to be flushed to zero by Box: stay clear
+
+
+def _small_change(rng, v, kind, e):
+    v = np.array(v, float)
+    n = v.copy()
+    if kind == 'volumetric':
+        n = v * (1.0 + e)
+    elif kind == 'normal':
+        w = rng.uniform(-1, 1, 3)
+        w[int(rng.integers(0, 3))] = 1.0
+        n = v * (1.0 + e * w)[None, :]
+    elif kind == 'row-scale':
+        k = int(rng.integers(0, 3))
+        n[k] = v[k] * (1.0 + e)
+    elif kind == 'single-component':
+        idx = np.argwhere(v != 0.0)
+        r, c = idx[int(rng.integers(0, len(idx)))]
+        n[r, c] = v[r, c] * (1.0 + e)
+    elif kind == 'general-strain':
+        s = rng.uniform(-1, 1, (3, 3))
+        s = (s + s.T) / 2
+        s /= np.abs(s).max()
+        n = v @ (np.eye(3) + e * s)
+    elif kind == 'shear':
+        j, k = [(0, 1), (0, 2), (1, 2), (1, 0), (2, 0), (2, 1)][int(rng.integers(0, 6))]
+        s = np.eye(3)
+        s[j, k] = e
+        n = v @ s
+    elif kind == 'single-fill':
+        idx = np.argwhere(v == 0.0)
+        if len(idx) == 0:
+            idx = np.argwhere(v != 0.0)
+        r, c = idx[int(rng.integers(0, len(idx)))]
+        n[r, c] = v[r, c] + e * np.abs(v).max()
+    elif kind == 'rotation':
+        ax = rng.normal(size=3)
+        ax /= np.linalg.norm(ax)
+        K = np.array([[0, -ax[2], ax[1]], [ax[2], 0, -ax[0]], [-ax[1], ax[0], 0]])
+        R = np.eye(3) + np.sin(e) * K + (1 - np.cos(e)) * (K @ K)
+        n = v @ R.T
+    elif kind == 'row-mix':
+        k = int(rng.integers(0, 3))
+        j = (k + 1 + int(rng.integers(0, 2))) % 3
+        n[k] = v[k] + e * v[j]
+    else:
+        raise ValueError(kind)
+    return n
+
+
+def gen_small_change(rng, v, kind, mag):
+    """New vectors differing from ``v`` by a relative change of size ``mag`` (sign random).  No component of the result
+    lies in (0, ZERO_ZONE * largest): if the requested size would put a freshly populated component there, the size is
+    raised (x100) until it does not.  Returns (new vects, size used, filled: a zero component became non-zero,
+    kept: every zero component stayed exactly zero)."""
+    v = np.array(v, float)
+    sign = float(rng.choice([-1.0, 1.0]))
+    used = mag
+    fresh = v == 0.0
+    for _ in range(6):
+        n = _small_change(rng, v, kind, sign * used)
+        a = np.abs(n)
+        if not np.any((a > 0) & (a < ZERO_ZONE * a.max()) & fresh) and not np.array_equal(n, v):
+            break
+        used *= 100.0
+    else:
+        used = mag
+        n = v * (1.0 + sign * mag)
+    # components that were already that small (left by an earlier step through lengths and angles) are given as exact zeros
+    a = np.abs(n)
+    n[(a > 0) & (a < 4e-9 * a.max())] = 0.0
+    zero = v == 0.0
+    filled = bool(np.any(n[zero] != 0.0))
+    return n, used, filled, not filled
